@@ -283,6 +283,10 @@ pub struct OrdGen {
     pub zig: bool,
     pub order: Vec<i32>, // insertion order of present keys (for newest / oldest)
     pub walk_after_mut: bool,
+    /// "fill" phase: insert until this many entries are stored (arena exactly full / just grown)
+    pub fill_target: Option<usize>,
+    pub fill_pct: u64,
+    pub pending: std::collections::VecDeque<Op>,
 }
 
 const W_INS: usize = 0;
@@ -349,7 +353,7 @@ impl OrdWorld {
     }
 
     fn default_gen() -> OrdGen {
-        OrdGen { w: [10, 5, 5, 2, 1, 1, 1, 0, 0, 0, 0, 1, 0, 1], key_pattern: 0, del_w: [1; 8], max_pop: 32, last_key: 0, zig: false, order: Vec::new(), walk_after_mut: false }
+        OrdGen { w: [10, 5, 5, 2, 1, 1, 1, 0, 0, 0, 0, 1, 0, 1], key_pattern: 0, del_w: [1; 8], max_pop: 32, last_key: 0, zig: false, order: Vec::new(), walk_after_mut: false, fill_target: None, fill_pct: 0, pending: std::collections::VecDeque::new() }
     }
 
     fn draw_gen(cfg: &Cfg, r: &mut Rng) -> OrdGen {
@@ -380,7 +384,9 @@ impl OrdWorld {
         } else if cfg.has(O_OHOLD) {
             g.w[W_HOLD] = g.w[W_HOLD].max(10);
             g.w[W_DEL] = g.w[W_DEL].min(2);
-            g.w[W_HDEL] = g.w[W_HDEL].min(1);
+            // the statement quantifies over insertions and lookups only
+            g.w[W_HDEL] = 0;
+            g.w[W_HWRITE] = 0;
             g.w[W_CLEAR] = g.w[W_CLEAR].min(1);
         }
         if !(cfg.has(O_OFIRST) || any) {
@@ -411,8 +417,23 @@ impl OrdWorld {
             g.del_w[4] = 1;
         }
         g.max_pop = *r.pick(&[2, 4, 8, 16, 32, 64, 256, 100000]);
+        g.fill_pct = *r.pick(&[0, 0, 25, 50, 100]);
+        if r.below(100) < g.fill_pct / 2 {
+            g.fill_target = Some(Self::draw_fill_target(cfg, r));
+        }
         g.last_key = cfg.key_lo + r.below(cfg.universe.max(1) as u64) as i32;
         g
+    }
+
+    fn draw_fill_target(cfg: &Cfg, r: &mut Rng) -> usize {
+        let slots = cfg.cap.max(8);
+        let t = match r.below(5) {
+            0 => slots.saturating_sub(2),
+            1 | 2 => slots - 1,
+            3 => slots,
+            _ => 2 * slots,
+        };
+        t.min(40).max(2)
     }
 
     fn expected_seen(&self, k: i32) -> Option<Seen> {
@@ -442,11 +463,17 @@ impl OrdWorld {
         let c: &Box<dyn OColl> = if twin { self.twins[ci].as_ref().unwrap() } else { &self.colls[ci] };
         let name = if twin { twin_name(c.name()) } else { c.name() };
         let owned = !twin;
+        let with_first = Self::sweep_with_first(&cfg);
         let mut out = Vec::with_capacity(keys.len() * 2 + 1);
         for q in keys {
             let (r, _) = call(ctx, &cfg, name, "get_value", opkind, owned, None, None, || c.get(q))?;
             if let Called::Ok(v) = r {
                 out.push(v);
+            }
+            if !with_first {
+                // the predecessor-handle query is C08's business, not C04/C05's
+                out.push(None);
+                continue;
             }
             let (r, _) = call(ctx, &cfg, name, "first_index_less", opkind, owned, None, None, || {
                 let h = c.first(q);
@@ -467,12 +494,17 @@ impl OrdWorld {
         Ok(out)
     }
 
+    fn sweep_with_first(cfg: &Cfg) -> bool {
+        cfg.has(O_OFIRST | O_OHANDLE | O_TORN | O_TWIN | O_CRASH)
+    }
+
     fn expected_observation(&self, model: &BTreeMap<i32, u32>) -> Vec<Option<Seen>> {
         let keys = self.sweep_keys();
+        let with_first = Self::sweep_with_first(&self.cfg);
         let mut out = Vec::with_capacity(keys.len() * 2 + 1);
         for q in keys {
             out.push(model.get(&q).map(|v| (q, q, *v)));
-            out.push(model.range(..=q).next_back().map(|(k, v)| (*k, *k, *v)));
+            out.push(if with_first { model.range(..=q).next_back().map(|(k, v)| (*k, *k, *v)) } else { None });
         }
         out.push(if model.is_empty() { None } else { Some((0, 0, 0)) });
         out
@@ -564,7 +596,7 @@ impl OrdWorld {
                         ));
                     }
                     if opkind == "OClear" && s.unused.len() + 1 != s.slots.len() {
-                        return Err(invariant("arena", name, opkind, "clear did not free every slot", format!("after clear {} of {} slots are free", s.unused.len(), s.slots.len() - 1)));
+                        return Err(invariant("arena", name, opkind, "clear did not free every slot", format!("after clear {} of {} slots are free", s.unused.len(), s.slots.len().saturating_sub(1))));
                     }
                     ctx.stats.oracle_evals += 1;
                 }
@@ -977,7 +1009,7 @@ impl OrdWorld {
             }
             _ => {}
         }
-        if matches!(op, Op::ODel { .. } | Op::OHDel { .. } | Op::OClear) {
+        if matches!(op, Op::ODel { .. } | Op::OHDel { .. } | Op::OHWrite { .. } | Op::OClear) {
             self.drop_held();
         }
         let mutating = matches!(op, Op::OIns { .. } | Op::ODel { .. } | Op::OClear | Op::OHWrite { .. } | Op::OHDel { .. });
@@ -1073,9 +1105,27 @@ impl OrdWorld {
             }
         }
         if hs.len() == self.colls.len() && hs.iter().all(|h| *h != EMPTY_REF) {
-            self.held.retain(|e| e.0 != k);
-            self.held.push((k, hs));
-            ctx.stats.bump("hold.handles_taken");
+            // keep the handle only if it designates the entry now (a wrong answer of the
+            // handle query itself is C08's business)
+            let expect = self.expected_seen(k);
+            let mut good = true;
+            for ci in 0..self.colls.len() {
+                let c = &self.colls[ci];
+                let h = hs[ci];
+                let (r, _) = call(ctx, &cfg, c.name(), "value_by_index", "OHold", false, None, None, || c.read(h))?;
+                if let Called::Ok(seen) = r {
+                    if Some(seen) != expect {
+                        good = false;
+                    }
+                }
+            }
+            if good {
+                self.held.retain(|e| e.0 != k);
+                self.held.push((k, hs));
+                ctx.stats.bump("hold.handles_taken");
+            } else {
+                ctx.stats.bump("hold.acquired_handle_designates_another_entry");
+            }
         }
         Ok(())
     }
@@ -1128,7 +1178,7 @@ impl OrdWorld {
             3 => ks[ks.len() - 1],
             5 => match snap {
                 // the key at the root
-                Some(s) if s.root != snap::E => s.slots[s.root as usize].key,
+                Some(s) if (s.root as usize) < s.slots.len() => s.slots[s.root as usize].key,
                 _ => *r.pick(&ks),
             },
             6 => match snap {
@@ -1206,13 +1256,29 @@ impl World for OrdWorld {
         }
         // C17: insertions and lookups must leave held handles valid
         match step.op {
-            Op::OIns { .. } | Op::OGet { .. } | Op::OFirst { .. } | Op::OHRead { .. } | Op::OHWrite { .. } | Op::OHold { .. } | Op::OEmpty => self.check_held(ctx, opkind)?,
+            Op::OIns { .. } | Op::OGet { .. } | Op::OFirst { .. } | Op::OHRead { .. } | Op::OHold { .. } | Op::OEmpty => self.check_held(ctx, opkind)?,
             _ => {}
         }
         Ok(Flow::Continue)
     }
 
     fn gen(&mut self, r: &mut Rng, _ctx: &mut RunCtx, _remaining: usize) -> Op {
+        while let Some(op) = self.gen.pending.pop_front() {
+            if self.legal(&op) {
+                return op;
+            }
+        }
+        if let Some(target) = self.gen.fill_target {
+            if self.model.len() < target && (self.cfg.universe as usize) > target + 1 {
+                for _ in 0..12 {
+                    let k = self.pick_key(r);
+                    if !self.model.contains_key(&k) {
+                        return Op::OIns { k };
+                    }
+                }
+            }
+            self.gen.fill_target = None;
+        }
         for _ in 0..8 {
             let which = r.weighted(&self.gen.w.clone());
             match which {
@@ -1225,12 +1291,18 @@ impl World for OrdWorld {
                     for _ in 0..6 {
                         let k = self.pick_key(r);
                         if !self.model.contains_key(&k) {
+                            if self.gen.walk_after_mut {
+                                self.gen.pending.push_back(Op::OWalk);
+                            }
                             return Op::OIns { k };
                         }
                     }
                 }
                 W_DEL => {
                     if let Some(k) = self.pick_present(r) {
+                        if self.gen.walk_after_mut {
+                            self.gen.pending.push_back(Op::OWalk);
+                        }
                         return Op::ODel { k };
                     }
                 }
@@ -1241,10 +1313,19 @@ impl World for OrdWorld {
                 W_GET => return Op::OGet { k: self.pick_probe(r) },
                 W_FIRST => return Op::OFirst { p: self.pick_probe(r) },
                 W_HREAD => return Op::OHRead { p: self.pick_probe(r) },
-                W_HWRITE => return Op::OHWrite { p: self.pick_probe(r) },
-                W_HDEL => {
-                    let p = if r.chance(1, 2) { self.pick_present(r).unwrap_or(0) } else { self.pick_probe(r) };
-                    return Op::OHDel { p };
+                W_HWRITE | W_HDEL => {
+                    // outside C08's own runs the handle is taken for an exact stored key, so that
+                    // the probe classes of the handle query (C08) do not leak into other checks
+                    let exact_only = !self.cfg.has(O_OHANDLE | O_OFIRST | O_CRASH | O_TWIN | O_TORN);
+                    let p = if exact_only || r.chance(1, 2) {
+                        match self.pick_present(r) {
+                            Some(k) => k,
+                            None => continue,
+                        }
+                    } else {
+                        self.pick_probe(r)
+                    };
+                    return if which == W_HWRITE { Op::OHWrite { p } } else { Op::OHDel { p } };
                 }
                 W_HOLD => {
                     if let Some(k) = self.pick_present(r) {
@@ -1268,7 +1349,12 @@ impl World for OrdWorld {
                     }
                 }
                 W_EMPTY => return Op::OEmpty,
-                W_CLEAR => return Op::OClear,
+                W_CLEAR => {
+                    if r.below(100) < self.gen.fill_pct {
+                        self.gen.fill_target = Some(Self::draw_fill_target(&self.cfg, r));
+                    }
+                    return Op::OClear;
+                }
                 _ => {}
             }
         }
